@@ -353,8 +353,8 @@ func buildC07src(tier string, fromCamera bool) sim.Scenario {
 		// faults
 		if !hostileSDP {
 			for f := 0; f < nFaults; f++ {
-				kind := tp.Choose(13)
-				if kind >= 11 { // a whole GOP one of whose packets is damaged in place: a parameter set, a slice, a fragment
+				kind := tp.Choose(14)
+				if kind >= 12 { // a whole GOP one of whose packets is damaged in place: a parameter set, a slice, a fragment
 					damagePk = tp.Choose(8)
 					w.Fault("damaged-gop")
 					w.Probe("c07.fault-injected")
@@ -432,6 +432,9 @@ func buildC07src(tier string, fromCamera bool) sim.Scenario {
 					raw = []byte{'$', byte(4 + tp.Choose(250)), 0, byte(len(tmpl.Data))}
 					raw = append(raw, tmpl.Data...)
 					name = "unknown-channel"
+				case 11: // an interleaved frame of length zero (a keep-alive some cameras send), on a media, control or unknown channel
+					raw = []byte{'$', byte([]int{0, 1, 2, 3, 9}[tp.Choose(5)]), 0, 0}
+					name = "zero-length-frame"
 				case 8: // a header extension (X bit) whose declared lengths lie: total length, or the element length of an RFC 8285 one-/two-byte extension
 					d := append([]byte(nil), tmpl.Data[:12]...)
 					d[0] |= 0x10
